@@ -72,7 +72,7 @@ SPEC = dict(
          "(factor = 0 or factor >= 8*(M+1)*ulp(sum of per-row max |cell|)) is false. Non-trivial: distinct (matrix, sequence) "
          "with M >= 2 and at least one scored position.",
     trusted_base=[
-        "Coq 8.16.1 kernel (coqc); vm_compute in wit_outcome / wit_finite (binary32 witness) and in the Example lemmas; no native_compute",
+        "Coq 8.16.1 kernel (coqc); vm_compute in wit_outcome / wit_finite / negz_outcome / negz_finite (binary32 witnesses) and in the Example lemmas; no native_compute; the binary32 theorems use Flocq's real-number semantics (classical axioms of the Reals library, allow-listed)",
         "Flocq 4.1.0 (BinarySingleNaN) as the definition of binary32 arithmetic, coq/base/IEEE.v wrappers "
         "(saturating casts, NaN canonicalisation)",
         "extraction: ExtrOcamlBasic only (nat, Z, positive, list kept as extracted inductives); OCaml 4.13.1",
@@ -86,9 +86,14 @@ SPEC = dict(
         "form (C04), StripedScores indexing",
     ],
     assumptions=[
-        "the property theorems are about EXACT arithmetic (extended rationals); for binary32 the statement is "
-        "false on ill-conditioned matrices (C08_ieee_refuted, known finding F14) and is NOT proved under the "
-        "conditioning predicate — there it is only checked on every run by the correspondence harness",
+        "the full statement is proved in EXACT arithmetic (extended rationals). For binary32 (what the code "
+        "computes) it is false on ill-conditioned matrices (C08_ieee_refuted, known finding F14) and, for the "
+        "consequence clause, with the factor -0.0 (C08_threshold_transfer_f32_refuted_negzero, F14b). Proved for "
+        "binary32 (Flocq): scale monotone and threshold transfer whenever the factor's sign bit is clear; the main "
+        "clause for every window under the conditioning predicate well_conditioned PLUS three side conditions "
+        "(sign bit of the factor clear, at most 16384 rows, cond_A <= 2^126) -- "
+        "C08_f32_main_well_conditioned_partial; without the side conditions the binary32 main clause is only "
+        "checked on every run by the correspondence harness",
         "Iterator::sum::<f32>() starts from -0.0 (observed on rustc 1.95; bit-compared on every run)",
         "symbols of a sequence index inside the matrix rows (K = 5 for DNA); the wildcard is the last column",
     ],
